@@ -75,7 +75,7 @@ func C09(c *core.Ctx) {
 			continue
 		}
 		var effects []ssa.Instruction
-		core.Instrs(fn, func(in ssa.Instruction) {
+		core.InstrsDeep(fn, func(in ssa.Instruction) {
 			ci, ok := in.(ssa.CallInstruction)
 			if !ok {
 				return
